@@ -590,7 +590,7 @@ impl LyNative for ListSort {
     hooks.push_root(list);
 
     let mut failure: Option<Call> = None;
-    list.sort_by(|a, b| {
+    merge_sort(&mut list, &mut |a: &Value, b: &Value| {
       if failure.is_some() {
         return Ordering::Equal;
       }
@@ -626,6 +626,58 @@ impl LyNative for ListSort {
       Some(failure) => failure,
       None => Call::Ok(val!(list)),
     }
+  }
+}
+
+/// A stable merge sort that accepts any comparator. The sorts of the
+/// standard library may panic when the order is not total and the
+/// comparator here is a function of the program
+fn merge_sort(items: &mut [Value], compare: &mut dyn FnMut(&Value, &Value) -> Ordering) {
+  let len = items.len();
+  if len < 2 {
+    return;
+  }
+
+  // every value stays in items, which is rooted, until a pass is complete
+  let mut buffer = items.to_vec();
+  let mut width = 1;
+
+  while width < len {
+    let mut start = 0;
+
+    while start < len {
+      let mid = (start + width).min(len);
+      let end = (start + 2 * width).min(len);
+      let (mut left, mut right, mut out) = (start, mid, start);
+
+      while left < mid && right < end {
+        if compare(&items[right], &items[left]) == Ordering::Less {
+          buffer[out] = items[right];
+          right += 1;
+        } else {
+          buffer[out] = items[left];
+          left += 1;
+        }
+        out += 1;
+      }
+
+      while left < mid {
+        buffer[out] = items[left];
+        left += 1;
+        out += 1;
+      }
+
+      while right < end {
+        buffer[out] = items[right];
+        right += 1;
+        out += 1;
+      }
+
+      start += 2 * width;
+    }
+
+    items.copy_from_slice(&buffer);
+    width *= 2;
   }
 }
 
